@@ -414,6 +414,16 @@ def replay(case, acc):
         check_long_orders(acc, "quick" if case["long_order"] <= 12 and len(case["keys"]) <= 4 else "thorough")
     elif "spelling" in case:
         check_spellings(acc)
+    elif "leak" in case:
+        run_shard(("leak", 0), "quick", acc)
+    elif "keys" in case and str(case.get("middleware", "")).startswith("custom:") and case["middleware"].count(":") == 2:
+        # one custom order, spelled in the label 'custom:<k1,k2,...>:<cs|ci>' (orders outside the main product live here)
+        _, o, mode = case["middleware"].split(":")
+        order = tuple(o.split(",")) if o else ()
+        cs = mode == "cs"
+        folded = list(order) if cs else [k.lower() for k in order]
+        rank = (lambda k: folded.index(k) if k in folded else len(folded)) if cs else (lambda k: folded.index(k.lower()) if k.lower() in folded else len(folded))
+        run_one(tuple(case["keys"]), case["middleware"], lambda ip: SortFieldsCustomMiddleware(order=order, case_sensitive=cs, allow_inplace_modification=ip), acc, rank)
     elif "keys" in case:
         check_entry(tuple(case["keys"]), "thorough", acc)
     else:
